@@ -1109,7 +1109,7 @@ func (p *Prog) newContainer() {
 	// then in the profiles whose operations must treat them as what they are: lists and objects (the model does not distinguish)
 	derived := false
 	switch p.prof {
-	case "C10", "C11", "C12x", "C13x", "C14x":
+	case "C10", "C11", "C12x", "C13x", "C14x", "C16x", "C02x":
 		derived = p.r.chance(0.15)
 	}
 	if p.r.chance(0.5) {
